@@ -12,6 +12,9 @@ import (
 	"fmt"
 	"math/rand"
 	"net/netip"
+	"runtime"
+	"sync"
+	"sync/atomic"
 
 	"github.com/zen-eth/shisui/portalwire"
 	"verifharness/lib"
@@ -124,6 +127,28 @@ func run(r *lib.Run) {
 	r.Assume("reference: unsigned LEB128 length prefix fitting 32 bits, concatenated items (portal wire spec)")
 	r.Assume("non-minimal varints are accepted by the reference (the statement does not forbid them); a rejection of one by the code is counted, not flagged")
 
+	// Held-encoding monitor: what an encoder returned must stay what it was while later calls encode other
+	// lists (the payload of an offer is held across the uTP dial and write while other offers are encoded).
+	type heldEnc struct {
+		enc, snapshot []byte
+		xs            [][]byte
+	}
+	var heldEncs []heldEnc
+	checkHeld := func() {
+		for i := range heldEncs {
+			h := &heldEncs[i]
+			r.Count("held_encodings_rechecked", 1)
+			if !bytes.Equal(h.enc, h.snapshot) {
+				r.Violation("encoded-stream-changed-later", fmt.Sprintf("the bytes returned by encodeContents for a list of %d items changed after later encode calls", len(h.xs)),
+					map[string]any{"item_lengths": describe(h.xs)})
+				h.enc = append([]byte(nil), h.snapshot...)
+				continue
+			}
+			if dec, err := portalwire.VerifDecodeContents(h.enc); err != nil || !equalLists(dec, h.xs) {
+				r.Violation("roundtrip-list:after-later-encodes", "splitting an earlier encoded stream after later encode calls no longer yields the joined items", map[string]any{"item_lengths": describe(h.xs)})
+			}
+		}
+	}
 	// --- 1. list round trip -------------------------------------------------
 	nLists := r.Pick(1500, 40000)
 	for i := 0; i < nLists; i++ {
@@ -174,6 +199,15 @@ func run(r *lib.Run) {
 			r.Count("encoding_differs_from_reference_leb128", 1)
 		}
 		r.DistinctBytes([]byte("list"), enc[:min(len(enc), 4096)], []byte(fmt.Sprint(len(enc))))
+		if len(enc) < 1<<16 {
+			heldEncs = append(heldEncs, heldEnc{enc: enc, snapshot: append([]byte(nil), enc...), xs: xs})
+			if len(heldEncs) > 12 {
+				heldEncs = heldEncs[1:]
+			}
+		}
+		if i%5 == 4 {
+			checkHeld()
+		}
 		r.Count("lists_roundtripped", 1)
 		r.Count("items_roundtripped", len(xs))
 		if i < 3 {
@@ -191,6 +225,37 @@ func run(r *lib.Run) {
 		}
 	}
 
+	checkHeld()
+	// concurrent encoders (gossip and offer goroutines encode at the same time)
+	{
+		var wg sync.WaitGroup
+		var bad atomic.Int64
+		for g := 0; g < 8; g++ {
+			wg.Add(1)
+			go func(g int) {
+				defer wg.Done()
+				rng := r.RNG("concurrent-encode", g)
+				for k := 0; k < r.Pick(300, 5000); k++ {
+					var xs [][]byte
+					for j := 0; j < 1+rng.Intn(4); j++ {
+						xs = append(xs, fill(rng, rng.Intn(300)))
+					}
+					enc := portalwire.VerifEncodeContents(xs)
+					runtime.Gosched()
+					dec, err := portalwire.VerifDecodeContents(enc)
+					r.Eval(1)
+					if err != nil || !equalLists(dec, xs) {
+						bad.Add(1)
+					}
+				}
+			}(g)
+		}
+		wg.Wait()
+		r.Count("concurrent_encode_roundtrips", 8*r.Pick(300, 5000))
+		if n := bad.Load(); n > 0 {
+			r.Violation("roundtrip-list:concurrent-encoders", fmt.Sprintf("%d round trips failed while 8 goroutines were encoding at the same time", n), nil)
+		}
+	}
 	// --- 2. decoder inputs ----------------------------------------------------
 	checkDecode := func(class string, in []byte) {
 		r.Eval(1)
